@@ -3,8 +3,9 @@
 (*   Code   [target, addr, pre]        what the code fixed when it was generated (target      *)
 (*                                     client id, target address) and the ids of mappings     *)
 (*                                     that existed before (not created from this code)       *)
-(*   Call   [p, op, client]            op = "Act" (ActivateConnectionCode by listen client    *)
-(*                                     `client`) | "Rev" (RevokeConnectionCode)               *)
+(*   Call   [p, op, client, node]      op = "Act" (ActivateConnectionCode by listen client    *)
+(*                                     `client`) | "Rev" (RevokeConnectionCode); node = the    *)
+(*                                     server node (own hybrid.Storage) the call goes through  *)
 (*   Ret    [p, op, ok, id, listen, tclient, taddr]   the call returned; for a successful     *)
 (*                                     activation the fields of the mapping it returned       *)
 (*   Expire []                         the activation TTL has elapsed (logged only once the   *)
@@ -17,7 +18,8 @@
 (* the file implies the same in reality.                                                      *)
 (*                                                                                            *)
 (* Clauses (exactly the statement of C06):                                                    *)
-(*   DoubleActivation     a second activation of the code succeeded                           *)
+(*   DoubleActivation     a second activation of the code succeeded; detail "xnode:..." when  *)
+(*                        the two successful calls went through different nodes               *)
 (*   ActivatedInvalid     an activation succeeded although the code was expired / revoked     *)
 (*                        during the WHOLE call (the expiry, or a successful revoke, had      *)
 (*                        completed before the activation was called).  Every overlap is      *)
@@ -32,8 +34,8 @@
 EXTENDS VLib
 
 VARIABLES code,     \* [target, addr, pre]
-          calls,    \* p -> [line, client]   (latest call of p)
-          succ,     \* successful activations: set of [p, id, call, ret, client]
+          calls,    \* p -> [line, client, node]   (latest call of p)
+          succ,     \* successful activations: set of [p, id, call, ret, client, node]
           revRet,   \* line at which the first successful revoke returned (0 = none)
           expLine,  \* line of the Expire event (0 = none)
           faults    \* labels of injected write failures, in order
@@ -49,11 +51,12 @@ TrCode == /\ Is("Code")
           /\ l' = l + 1 /\ UNCHANGED <<viol, calls, succ, revRet, expLine, faults>>
 
 TrCall == /\ Is("Call")
-          /\ calls' = [x \in DOMAIN calls \cup {Ev.p} |-> IF x = Ev.p THEN [line |-> l, client |-> Ev.client] ELSE calls[x]]
+          /\ calls' = [x \in DOMAIN calls \cup {Ev.p} |-> IF x = Ev.p THEN [line |-> l, client |-> Ev.client, node |-> Ev.node] ELSE calls[x]]
           /\ l' = l + 1 /\ UNCHANGED <<viol, code, succ, revRet, expLine, faults>>
 
 ActViol(e, c) ==
-     (IF succ # {} THEN {V("DoubleActivation", IF \E s \in succ : s.ret < c.line THEN "sequential" ELSE "concurrent")} ELSE {})
+     (IF succ # {} THEN {V("DoubleActivation", (IF \E s \in succ : s.node # c.node THEN "xnode:" ELSE "")
+                                               \o (IF \E s \in succ : s.ret < c.line THEN "sequential" ELSE "concurrent"))} ELSE {})
   \cup (IF expLine # 0 /\ expLine < c.line THEN {V("ActivatedInvalid", "expired")} ELSE {})
   \cup (IF revRet # 0 /\ revRet < c.line THEN {V("ActivatedInvalid", "revoked")} ELSE {})
   \cup (IF e.listen # c.client THEN {V("WrongFields", "returned:listen")} ELSE {})
@@ -64,7 +67,7 @@ TrRet == /\ Is("Ret")
          /\ IF Ev.op = "Act" /\ Ev.ok
             THEN LET c == calls[Ev.p] IN
                  /\ viol' = viol \cup ActViol(Ev, c)
-                 /\ succ' = succ \cup {[p |-> Ev.p, id |-> Ev.id, call |-> c.line, ret |-> l, client |-> c.client]}
+                 /\ succ' = succ \cup {[p |-> Ev.p, id |-> Ev.id, call |-> c.line, ret |-> l, client |-> c.client, node |-> c.node]}
                  /\ revRet' = revRet
             ELSE /\ viol' = viol /\ succ' = succ
                  /\ revRet' = IF Ev.op = "Rev" /\ Ev.ok /\ revRet = 0 THEN l ELSE revRet
